@@ -27,12 +27,17 @@ let () =
     let n = Array.length means and m = Array.length h in
     let kind = Caseio.get_int c ("hkind" ^ suf) in
     let comps = mat_cols means in
+    (* optional: nc / mc = number of trailing circular (Euler) rows of the state / of the measurement description; outcomps = number of
+       components of the output object handed to correct() (>= comps) *)
+    let nc = if Caseio.has c "nc" then Caseio.get_int c "nc" else 0 in
+    let mc = if Caseio.has c "mc" then Caseio.get_int c "mc" else 0 in
+    let outcomps = if Caseio.has c "outcomps" then max comps (Caseio.get_int c "outcomps") else comps in
     let pcomps =
       List.init comps (fun i -> (lmx_of_mat (mat_col means i), lmx_of_mat (mat_block_cols covs (i * n) n))) in
     let pred = (pcomps, List.init comps (fun i -> ob weights.(i).(0))) in
     (* previous content of the output object, as the harness fills it *)
     let filler v r cc = lmx_of_mat (Array.make_matrix r cc v) in
-    let corr_prev = (List.init comps (fun _ -> (filler 7.25 n 1, filler (-3.5) n n)), List.init comps (fun _ -> ob 0.125)) in
+    let corr_prev = (List.init outcomps (fun _ -> (filler 7.25 n 1, filler (-3.5) n n)), List.init outcomps (fun _ -> ob 0.125)) in
     (* square-root oracle: the factor the implementation computed for this covariance *)
     let table =
       match Hashtbl.find_opt impl_tbl c.id with
@@ -46,13 +51,14 @@ let () =
       match List.assoc_opt key table with
       | Some a -> a
       | None -> failwith "drv_C05: no square-root factor for this covariance" in
+    let nnl = nat_of_int (n - nc) in
     let nn = nat_of_int n and nm = nat_of_int m and ns = nat_of_int s and nk = nat_of_int kind in
     let lh = lmx_of_mat h and lg1 = lmx_of_mat g1 and lg2 = lmx_of_mat g2 in
     let lb = lmx_of_mat b and lg = lmx_of_mat g and ly = lmx_of_mat y in
     let run pre0 reduced r =
       let pre = tp ^ pre0 in
       let ((ocomps, ow), mem) =
-        c05_sukf fops sq nn nm ns nk lh lg1 lg2 lb lg ly reduced (lmx_of_mat r) alpha beta kappa pred corr_prev in
+        c05_sukf fops sq nn nnl nm (nat_of_int (m - mc)) ns nk lh lg1 lg2 lb lg ly reduced (lmx_of_mat r) alpha beta kappa pred corr_prev in
       Caseio.out_int (pre ^ "components") (List.length ocomps);
       List.iteri
         (fun i (mean, cov) ->
@@ -73,7 +79,7 @@ let () =
       (* single cases, the harness' second call: the model then reports a measurement of size m + 1 *)
       if second && s >= 2 && m mod s = 0 then begin
         let ((ocomps2, ow2), mem2) =
-          c05_sukf fops sq nn (nat_of_int (m + 1)) ns nk lh lg1 lg2 lb lg ly reduced (lmx_of_mat r) alpha beta kappa pred corr_prev in
+          c05_sukf fops sq nn nnl (nat_of_int (m + 1)) (nat_of_int (m + 1 - mc)) ns nk lh lg1 lg2 lb lg ly reduced (lmx_of_mat r) alpha beta kappa pred corr_prev in
         Caseio.out_int (pre ^ "2_lik_valid") (match mem2 with None -> 0 | Some _ -> 1);
         let same = List.map (fun (a, b) -> (List.map (List.map fl) a, List.map (List.map fl) b)) in
         Caseio.out_int (pre ^ "2_out_equals_pred")
@@ -82,7 +88,7 @@ let () =
     in
     if Caseio.has c ("Rblock" ^ suf) then run "r_" true (gm "Rblock");
     run "f_" false rfull;
-    let spec = c05_ukf fops sq nn nm nk lh lg1 lg2 lb lg ly (lmx_of_mat rfull) alpha beta kappa pcomps in
+    let spec = c05_ukf fops sq nn nnl nm (nat_of_int (m - mc)) nk lh lg1 lg2 lb lg ly (lmx_of_mat rfull) alpha beta kappa pcomps in
     List.iteri
       (fun i ((((mean, cov), innov), pyy), lik) ->
         Caseio.out_mat (Printf.sprintf "%su_mean%d" tp i) (mat_of_lmx mean);
@@ -99,6 +105,8 @@ let () =
       let seq = c.kind = "sukf_seq" in
       let n = Array.length (Caseio.get_mat c (if seq then "means_1" else "means")) in
       Caseio.out_begin c.id;
+      let skipped = match Hashtbl.find_opt impl_tbl c.id with Some r -> Caseio.has r "skipped" | None -> false in
+      if skipped then begin Caseio.out_int "skipped" 1; Caseio.out_end () end else begin
       let ((((wm0, wmi), wc0), wci), cc) = c05_weights fops (nat_of_int n) alpha beta kappa in
       let l = 2 * n + 1 in
       Caseio.out_mat "wm" (Array.init l (fun j -> [| if j = 0 then fl wm0 else fl wmi |]));
@@ -109,5 +117,5 @@ let () =
           one_call c (Printf.sprintf "_%d" t) (Printf.sprintf "t%d_" t) false alpha beta kappa s
         done
       else one_call c "" "" true alpha beta kappa s;
-      Caseio.out_end ())
+      Caseio.out_end () end)
     cases
